@@ -270,7 +270,7 @@ def op4(ctx):
         yield Ob(key_of("C09-Op4", "write_sanity|sanity_check", role), ok, "%s: writer at %s, reader at %s" % (role, wt.get(role), rt.get(role)), r.loc())
 
 
-@rule("C09-Op5", "C09", 4, "constructor flags: map_in builds Memory{read_only: true}; alloc, map_anon and map_mut_in build read_only: false")
+@rule("C09-Op5", "C09", lambda cfg: 4 if "memmap" in cfg else 1, "constructor flags: map_in builds Memory{read_only: true}; alloc, map_anon and map_mut_in build read_only: false")
 def op5(ctx):
     want = {"map_in::{closure#0}": 1, "map_mut_in::{closure#0}": 0, "map_anon::{closure#0}": 0, "alloc": 0}
     for name, ro in want.items():
@@ -347,7 +347,8 @@ def is_backing(base):
 
 
 @rule("C09-Op7", "C09", 20, "read-only guard coverage: in every safe public method of both arenas, each write into the backing memory "
-      "(raw write, atomic store/RMW/CAS, plain store to header or node) is reached only past a test of the read-only flag")
+      "(raw write, atomic store/RMW/CAS, plain store to header or node) is reached only past a test of the read-only flag "
+      "(memmap builds only: without memmap no constructor builds a read-only arena, see Op5)", configs=MEMCFG)
 def op7(ctx):
     SELF = ("param", 0, "self")
     for fl in ("sync", "unsync"):
